@@ -22,6 +22,7 @@ import (
 	"sort"
 	"strings"
 	"testing"
+	"time"
 
 	"github.com/hashicorp/go-hclog"
 
@@ -163,6 +164,27 @@ type zvNamedAuthz struct {
 }
 
 func zvRandomPolicyAuthz(rng *core.Rand, tag string) (*zvNamedAuthz, error) {
+	rules := zvRandomRules(rng)
+	pol, err := acl.NewPolicyFromSource(rules, nil, nil)
+	if err != nil {
+		return nil, fmt.Errorf("policy %q: %w", rules, err)
+	}
+	var az acl.Authorizer
+	mode := core.Pick(rng, []string{"deny", "deny", "allow", "manage", "bare"})
+	switch mode {
+	case "bare": // unchained: answers Default where no rule matches
+		az, err = acl.NewPolicyAuthorizer([]*acl.Policy{pol}, nil)
+	default:
+		az, err = acl.NewPolicyAuthorizerWithDefaults(acl.RootAuthorizer(mode), []*acl.Policy{pol}, nil)
+	}
+	if err != nil {
+		return nil, err
+	}
+	return &zvNamedAuthz{Authorizer: az, id: "policy(" + tag + "," + mode + ")", rules: rules}, nil
+}
+
+// zvRandomRules: random rule text over the name universe (exact and prefix rules, all access levels)
+func zvRandomRules(rng *core.Rand) string {
 	var sb strings.Builder
 	hclKind := map[string]string{"node": "node", "service": "service", "session": "session", "key": "key", "query": "query"}
 	seen := map[string]bool{}
@@ -197,23 +219,7 @@ func zvRandomPolicyAuthz(rng *core.Rand, tag string) (*zvNamedAuthz, error) {
 	if rng.Chance(50) {
 		fmt.Fprintf(&sb, "acl = %q\n", core.Pick(rng, []string{"read", "write", "deny"}))
 	}
-	rules := sb.String()
-	pol, err := acl.NewPolicyFromSource(rules, nil, nil)
-	if err != nil {
-		return nil, fmt.Errorf("policy %q: %w", rules, err)
-	}
-	var az acl.Authorizer
-	mode := core.Pick(rng, []string{"deny", "deny", "allow", "manage", "bare"})
-	switch mode {
-	case "bare": // unchained: answers Default where no rule matches
-		az, err = acl.NewPolicyAuthorizer([]*acl.Policy{pol}, nil)
-	default:
-		az, err = acl.NewPolicyAuthorizerWithDefaults(acl.RootAuthorizer(mode), []*acl.Policy{pol}, nil)
-	}
-	if err != nil {
-		return nil, err
-	}
-	return &zvNamedAuthz{Authorizer: az, id: "policy(" + tag + "," + mode + ")", rules: rules}, nil
+	return sb.String()
 }
 
 func zvAuthzID(az acl.Authorizer) string {
@@ -405,17 +411,24 @@ type zvCaseWitness struct {
 }
 
 // zvRunCase executes one (type, arrangement, authorizer) case.
-func zvRender(v any) string { return dump.Render(v) }
+// zvRender: canonical rendering; a nil and an empty top-level list are the same response
+func zvRender(v any) string {
+	s := dump.Render(v)
+	if s == "&[]" {
+		return "&nil"
+	}
+	return s
+}
 
 func zvRunCase(run *core.Run, ty *zvType, emptyS string, es []zvElem, az acl.Authorizer) {
 	pes := zvPos(es)
 	r := zvRef{az}
 	exp := ty.expect(r, pes)
-	expS := dump.Render(exp.subject)
+	expS := zvRender(exp.subject)
 
 	var lv zvLeaves
 	subject := ty.build(pes, &lv)
-	inputS := dump.Render(subject)
+	inputS := zvRender(subject)
 	before := make([]string, len(lv.ptrs))
 	for i, p := range lv.ptrs {
 		before[i] = dump.Render(p)
@@ -448,7 +461,7 @@ func zvRunCase(run *core.Run, ty *zvType, emptyS string, es []zvElem, az acl.Aut
 		run.Violation("C09:filter:"+ty.name+":panic", fmt.Sprintf("filter of %s panicked (%s) for arrangement %s under %s", ty.name, msg, core.JSON(es), zvAuthzID(az)), wit("panic: "+msg))
 		return
 	}
-	gotS := dump.Render(got)
+	gotS := zvRender(got)
 	if gotS != expS {
 		class := "content"
 		// the flag is part of the rendered response: tell flag-only disagreements apart
@@ -548,6 +561,7 @@ func TestZZVerifC09(t *testing.T) {
 		"prepared-query lists: removal of UNNAMED queries is not reported in the flag (documented in filterPreparedQueries); IntentionQueryMatch is all-or-nothing; txn check results need service:read for service checks and node:read for node checks",
 		"objects that the state store hands out (nodes, services, checks, sessions, intentions, queries, ACL objects, KV entries) are shared and must not be written by a filter; per-query wrapper structs may be")
 	rng := core.NewRand(core.Seed())
+	t0 := time.Now()
 
 	tys := zvTypes()
 	// ---- the table must cover the type switch of the tree under test
@@ -586,7 +600,7 @@ func TestZZVerifC09(t *testing.T) {
 			fixed = append(fixed, zvBaseTable(zvD, zvD))
 		}
 		trng := rng.Fork(uint64(ti))
-		emptyS := dump.Render(ty.build(nil, nil))
+		emptyS := zvRender(ty.build(nil, nil))
 		for ai, es := range arr {
 			core.Progress("C09", fmt.Sprintf("filter %s arrangement %d %s", ty.name, ai, core.JSON(es)))
 			for _, az := range fixed {
@@ -618,7 +632,19 @@ func TestZZVerifC09(t *testing.T) {
 	}
 	run.Floor("filter_cases", 50000)
 
-	zvExpiry(run, rng.Fork(777))
+	run.Extra("filter_part_wall_s", int(time.Since(t0).Seconds()))
+	zvStoreAliasing(run, rng.Fork(555))
+	run.Floor("aliasing_cases", 1000)
+	run.Floor("aliasing_cases_filtered", 500)
+	run.FloorDistinct("aliasing-queries", 30)
+	erng, srng := rng.Fork(777), rng.Fork(888)
+	zvServerTier(t, run, srng, func() { zvExpiry(run, erng) })
+	run.Floor("server_cases", 300)
+	run.Floor("server_cases_mixed", 50)
+	run.Floor("server_anonymous_cases", 20)
+	run.Floor("server_expired_cases", 60)
+	run.FloorDistinct("server-endpoints", 20)
+	run.Extra("total_wall_s", int(time.Since(t0).Seconds()))
 	run.Floor("expiry_cases", 5000)
 	run.Floor("expiry_realtime_cases", 500)
 	run.Floor("expired_refused_not_found", 2000)
